@@ -110,6 +110,13 @@ def _cfg(draw, tier, with_file=None):
         st.tuples(st.integers(0, nvar - 1),
                   st.one_of(st.just(0), st.integers(0, rep_max + 3))),
         max_size=6, unique=True).map(lambda l: [list(x) for x in l]))
+    if draw(st.integers(0, 7)) == 0:
+        # a variation for which most attempts are invalid: only every m-th
+        # attempt counts (rejection sampling in the simulated scenario)
+        m = draw(st.sampled_from([2, 3, 4, 5, 7, 9, 12, 60]))
+        vd = draw(st.integers(0, nvar - 1))
+        skips = [s for s in skips if s[0] != vd] + \
+            [[vd, a] for a in range(m * (rep_max + 2)) if a % m != m - 1]
     if with_file is None:
         with_file = draw(st.booleans())
     filename = None
@@ -358,6 +365,7 @@ def check(case, ctx):
                                                      d["unpack_index"]), tags)
                 # -- keep_going consulted with the right state ----------------
                 _check_keep_going(env.log[log_start:], cfg, expected, tags)
+                _check_hooks(env.log[log_start:], vlist, tags)
                 # -- recorded counts and stored results -----------------------
                 if single:
                     v = mode["index"]
@@ -409,14 +417,26 @@ def _check_keep_going(log, cfg, expected, tags):
     far, merge of exactly those successes)."""
     succ = {}
     loaded = {}
+    nskipped = {}
     cur_v = None
     for kind, d in log:
+        if kind == "hook":
+            continue
         v = d["v"]
         if kind == "call":
             cur_v = v
             if d["gid"] is not None:
                 succ.setdefault(v, []).append(d["gid"])
+            else:
+                nskipped[v] = nskipped.get(v, 0) + 1
             continue
+        if cfg["filename"] is None and d.get("nskip") != nskipped.get(v, 0):
+            # (without a results file nothing is re-loaded: the stop rule
+            # sees how many attempts of this combination were skipped so far)
+            raise Violation("keep_going_state", "variation %d: the results "
+                            "handed to _keep_going report %r skipped "
+                            "repetitions, %d were skipped" %
+                            (v, d.get("nskip"), nskipped.get(v, 0)), tags)
         # kg: ids multiset tells which repetitions are merged
         have = d["ids"]
         if any(m != 1 for m in have.values()):
@@ -437,6 +457,34 @@ def _check_keep_going(log, cfg, expected, tags):
         if d["sumv"] != want_sum:
             raise Violation("keep_going_state", "variation %d: merged sumv %r "
                             "!= %r" % (v, d["sumv"], want_sum), tags)
+
+
+def _check_hooks(log, vlist, tags):
+    """The documented per-combination hooks frame the repetitions of their
+    combination: start(v) before the first call of v, finish(v) after its
+    last one, in the order of the combinations."""
+    seq = []
+    for kind, d in log:
+        if kind == "hook":
+            if d["name"] != "sim_finish":
+                seq.append((d["name"], d["v"]))
+        elif kind == "call" and (not seq or seq[-1] != ("call", d["v"])):
+            seq.append(("call", d["v"]))
+    want = []
+    had_calls = set(v for k, v in seq if k == "call")
+    for v in vlist:
+        want.append(("start", v))
+        if v in had_calls:
+            want.append(("call", v))
+        want.append(("finish", v))
+    if seq != want:
+        i = 0
+        while i < min(len(seq), len(want)) and seq[i] == want[i]:
+            i += 1
+        raise Violation("hooks_order", "hooks and repetitions interleave as "
+                        "%r, expected %r (first difference at %d)" %
+                        (seq[max(0, i - 2):i + 3], want[max(0, i - 2):i + 3],
+                         i), tags)
 
 
 def _check_lookups(case, cfg, names, combos, runner, expected, tags, ctx):
@@ -468,6 +516,19 @@ def _check_lookups(case, cfg, names, combos, runner, expected, tags, ctx):
         if list(gv) != wv:
             raise Violation("get_result_values_list", "fixed=%r: got %r "
                             "expected %r" % (fixed_d, gv, wv), tags)
+        # the sibling look-up for confidence intervals selects the same
+        # combinations
+        ci = res.get_result_values_confidence_intervals("ratio", 95.0,
+                                                        fixed_d)
+        wci = [res["ratio"][i].get_confidence_interval(95.0) for i in want]
+        if len(ci) != len(wci) or any(
+                not np.allclose(np.asarray(a, dtype=float),
+                                np.asarray(b, dtype=float), rtol=0, atol=0,
+                                equal_nan=True) for a, b in zip(ci, wci)):
+            raise Violation("get_result_values_confidence_intervals",
+                            "fixed=%r: %d intervals %r, expected those of "
+                            "combinations %r: %r" % (fixed_d, len(ci), ci,
+                                                     want, wci), tags)
         ctx.count("lookups")
 
 
